@@ -9,7 +9,7 @@ mod render;
 
 use proc_macro2::{Delimiter, Span, TokenStream, TokenTree};
 use quote::ToTokens;
-use render::{render, truncate};
+use render::{render, truncate, KEYWORDS};
 use std::collections::{BTreeMap, HashSet};
 use std::fmt::Write as _;
 use std::path::{Path, PathBuf};
@@ -209,6 +209,40 @@ fn strip_attrs(ts: TokenStream) -> TokenStream {
         }
     }
     v[i..].iter().cloned().collect()
+}
+
+/// Best-effort operand of an `as` seen in a raw token tree: the postfix chain
+/// (`a.b(c)[d]`, `T::f(x)`, `(expr)`, literal) that ends right before the `as`.
+fn cast_source(before: &[TokenTree]) -> TokenStream {
+    let mut k = before.len();
+    let mut last_atom = false; // the token after position k is an identifier / literal
+    while k > 0 {
+        let ok = match &before[k - 1] {
+            TokenTree::Group(g) => {
+                last_atom = false;
+                matches!(g.delimiter(), Delimiter::Parenthesis | Delimiter::Bracket | Delimiter::None)
+            }
+            TokenTree::Ident(id) => {
+                let atom = !last_atom && !KEYWORDS.contains(&ident_name(id).as_str());
+                last_atom = true;
+                atom
+            }
+            TokenTree::Literal(_) => {
+                let atom = !last_atom;
+                last_atom = true;
+                atom
+            }
+            TokenTree::Punct(p) => {
+                last_atom = false;
+                matches!(p.as_char(), '.' | ':' | '$')
+            }
+        };
+        if !ok {
+            break;
+        }
+        k -= 1;
+    }
+    before[k..].iter().cloned().collect()
 }
 
 // ----------------------------------------------------------- attribute helpers
@@ -477,7 +511,8 @@ impl<'a> Scan<'a> {
                 self.emit(ln, "unsafe", "attr");
                 if let Meta::List(l) = m {
                     if let Ok(inner) = l.parse_args::<Meta>() {
-                        self.meta_facts(&inner, style, whole, ln, true);
+                        let w = format!("unsafe({})", render(inner.to_token_stream(), 400));
+                        self.meta_facts(&inner, style, if wrapped { whole } else { &w }, ln, true);
                     }
                 }
             }
@@ -641,10 +676,7 @@ impl<'a> Scan<'a> {
                     }
                 } else if let Some(t) = as_ident(v.get(i + 1)) {
                     if INT_TYPES.contains(&t.as_str()) {
-                        let src = match prev {
-                            Some(tt) => render(TokenStream::from(tt.clone()), 60),
-                            None => String::new(),
-                        };
+                        let src = render(cast_source(&v[..i]), 60);
                         self.emit(ln, "cast", format!("{} as {}", src, t));
                     }
                 }
@@ -693,12 +725,16 @@ impl<'a> Scan<'a> {
                 }
                 return i + 2;
             }
+            k if KEYWORDS.contains(&k) => return i + 1,
             _ => {}
         }
 
         // collect `a::b::c`
         let prev_sep = i >= 2 && is_sep(v, i - 2);
-        let leading = prev_sep && !(i >= 3 && is_punct(v.get(i - 3), '>'));
+        let after_generic = i >= 3
+            && is_punct(v.get(i - 3), '>')
+            && !(i >= 4 && (is_punct(v.get(i - 4), '-') || is_punct(v.get(i - 4), '=')));
+        let leading = prev_sep && !after_generic;
         let mut segs = vec![name.clone()];
         let mut j = i + 1;
         while is_sep(v, j) {
@@ -799,7 +835,17 @@ impl<'a, 'ast> Visit<'ast> for Scan<'a> {
             }
         }
         let what = if self.file == "lib.rs" { "crate" } else { "file" };
-        self.with_attrs(&f.attrs, &|| what.to_string(), |s| visit::visit_file(s, f));
+        // A file-level `#![cfg_attr(..)]` gates nothing and would end up in the `cfg`
+        // field of every fact of the file (even of attributes written before it), so
+        // only a real `#![cfg(..)]` is pushed as context; cfg_attr gates on "std" are
+        // still reported as std_gate facts.
+        let ctx: Vec<Attribute> = f.attrs.iter().filter(|a| a.path().is_ident("cfg")).cloned().collect();
+        for a in f.attrs.iter().filter(|a| a.path().is_ident("cfg_attr") && is_std_gate(a)) {
+            let ln = line(a.pound_token.span);
+            self.gates_seen.insert((ln, a.pound_token.span.start().column));
+            self.emit(ln, "std_gate", format!("{} :: {}", attr_text(a), what));
+        }
+        self.with_attrs(&ctx, &|| what.to_string(), |s| visit::visit_file(s, f));
     }
 
     fn visit_attribute(&mut self, a: &'ast Attribute) {
